@@ -747,7 +747,32 @@ def _slim(res: dict, keep_sample: bool) -> dict:
 def _worker(item):
     what = item[0]
     out = []
-    if what == 'skipped':
+    if what == 'variety':
+        # long use with variety: hundreds of small well-formed documents, each with identifiers
+        # of its own, parsed one after the other in this process (a tool walking over a tree of
+        # model files) - some five thousand distinct identifiers in all
+        agg = {'violations': [], 'counts': {}, 'digest': f'variety:{item[1]}', 'nontrivial': True}
+        for k in range(item[2]):
+            names = [f'{item[1]}v{k}n{j}' for j in range(12)]
+            doc = {'<class>': 'root', 'working-directory': '/w', 'elements': [
+                {'<class>': 'namespace', 'name': {'<class>': 'scope_name', 'ids': names[:2]},
+                 'elements': [
+                     {'<class>': 'enum', 'name': {'<class>': 'scope_name', 'ids': [names[2]]},
+                      'fields': {'<class>': 'fields', 'elements': names[3:6]}},
+                     {'<class>': 'extern', 'name': {'<class>': 'scope_name', 'ids': [names[6]]},
+                      'value': {'<class>': 'data', 'value': 'int'}},
+                     {'<class>': 'subint', 'name': {'<class>': 'scope_name', 'ids': [names[7]]},
+                      'range': {'<class>': 'range', 'from': 0, 'to': k}}]}]}
+            case = {'doc': doc, 'mutations': [f'document {k} of a series with fresh identifiers'],
+                    'route': 'str'}
+            res = eval_case(case)
+            agg['counts']['documents_of_a_long_series_with_fresh_identifiers'] = \
+                agg['counts'].get('documents_of_a_long_series_with_fresh_identifiers', 0) + 1
+            for v in res['violations'][:1]:
+                if not agg['violations']:
+                    agg['violations'].append(v)
+        out.append(({'variety': item[1]}, agg))
+    elif what == 'skipped':
         for bad in (False, True):
             case = {'canary_kind': item[1], 'canary_depth': item[2], 'route': item[3],
                     'bad_out_event': bad}
@@ -786,12 +811,14 @@ def main(tier: str) -> int:
     n_mutants = 20000 if tier == 'quick' else 500000
     groups = n_mutants // PER_GROUP
     items = [('canary', d, 'str') for d in CANARY_OK + CANARY_DEEP] + [('fixed',)]
+    items += [('variety', 'a', 450), ('variety', 'b', 450)]
     items += [('skipped', kind, depth, 'bytes' if depth == 600 else 'str')
               for kind, depth in CANARY_SKIPPED]
     items += [('group', run.seed, g) for g in range(groups)]
     run.require('outcome_returned', 'outcome_DznJsonError', 'outcome_NamespaceIdsTypeError',
                 'outevent_refusals_checked', 'canary_depths_checked', 'base_parsed',
-                'fixed_documents', 'deep_skipped_values_checked', 'parsed_with_verbose_True', 'parsed_with_verbose_False',
+                'fixed_documents', 'deep_skipped_values_checked',
+                'documents_of_a_long_series_with_fresh_identifiers', 'parsed_with_verbose_True', 'parsed_with_verbose_False',
                 'refused_documents_mended_in_place_then_reparsed')
     for _item, out in run.pmap(_worker, items, chunksize=4 if tier == 'quick' else 25):
         if isinstance(out, dict):          # harness error of a whole work item
